@@ -419,6 +419,50 @@ Theorem dummies_marked_and_throw_proof :
                    mk = false /\ forall f th, In (f, th) ms -> th = false).
 Proof. exact (callback_classes_ok_sound uses_gen callback_classes_ok_gen). Qed.
 
+Lemma find_wrapper_In : forall ws w tb, find_wrapper ws w = Some tb -> In (w, tb) ws.
+Proof.
+  induction ws as [|[n t0] r IH]; intros w tb H; simpl in H; [discriminate|].
+  destruct (String.eqb n w) eqn:E.
+  - inversion H; subst. apply String.eqb_eq in E. subst. left; reflexivity.
+  - right. apply IH; exact H.
+Qed.
+
+(* generic: the meaning of the decider for one initialiser  slot := W(s) *)
+Lemma wrapper_init_ok_sound : forall u slot w s, wrapper_init_ok u (slot, EWrap w (EId s)) = true ->
+  exists tb r, In (w, tb) (u_wrappers u) /\ slot_role s = Some r /\ slot_role slot = Some r /\ tb <> [] /\
+    forall member calls, In (member, calls) tb -> calls <> [] /\ forall f, In f calls -> f = role_function r.
+Proof.
+  intros u slot w s H. simpl in H.
+  destruct (find_wrapper (u_wrappers u) w) as [tb|] eqn:Ew; [|discriminate].
+  destruct (slot_role s) as [r|] eqn:Es; [|discriminate].
+  destruct (slot_role slot) as [r'|] eqn:Er; [|discriminate].
+  apply andb_true_iff in H as [H12 H3]. apply andb_true_iff in H12 as [H1 H2].
+  apply kind_eqb_eq in H1. subst r'.
+  exists tb, r. split; [apply find_wrapper_In; exact Ew|]. split; [reflexivity|]. split; [reflexivity|]. split.
+  - destruct tb; [discriminate | discriminate].
+  - intros member calls Hin. rewrite forallb_forall in H3. specialize (H3 (member, calls) Hin). simpl in H3.
+    apply andb_true_iff in H3 as [Hne Hall]. split.
+    + destruct calls; [discriminate | discriminate].
+    + intros f Hf. rewrite forallb_forall in Hall. specialize (Hall f Hf). apply String.eqb_eq in Hall. auto.
+Qed.
+
+Lemma wrappers_ok_gen : wrappers_ok chain_gen uses_gen = true.
+Proof. vm_compute. reflexivity. Qed.
+
+Theorem wrappers_forward_to_own_role_proof : forall c slot w e,
+  find_class (t_classes chain_gen) (t_impl_class chain_gen) = Some c ->
+  In (slot, EWrap w e) (c_inits c) ->
+  exists s tb r, e = EId s /\ In (w, tb) (u_wrappers uses_gen) /\ slot_role s = Some r /\ slot_role slot = Some r /\
+    tb <> [] /\
+    forall member calls, In (member, calls) tb -> calls <> [] /\ forall f, In f calls -> f = role_function r.
+Proof.
+  intros c slot w e Hc Hin. pose proof wrappers_ok_gen as H. unfold wrappers_ok in H. rewrite Hc in H.
+  rewrite forallb_forall in H. specialize (H (slot, EWrap w e) Hin).
+  destruct e as [s| | | | | | | ]; try (simpl in H; discriminate).
+  destruct (wrapper_init_ok_sound uses_gen slot w s H) as [tb [r [H1 [H2 [H3 [H4 H5]]]]]].
+  exists s, tb, r. repeat split; auto; apply (H5 member calls); assumption.
+Qed.
+
 Lemma derefs_ok_gen : derefs_ok uses_gen = true.
 Proof. vm_compute. reflexivity. Qed.
 
